@@ -333,3 +333,79 @@ def VALUE_BATCH(K=0, horizon=5, ops=None):
     if ops is None:
         ops = [('fail', 'P', 0), ('restore', 'P')]
     return spec(f'VALUEBATCH[K{K}]', devs, horizon, ops, K)
+
+
+# ---------------------------------------------------------------------------- rows added after the first seeded-change round
+
+def BUFBATCH(K=0, horizon=5, pattern=(2, 3, None), cap=5, size=None, sink_cycle=0.5, ops=None):
+    '''Batches stored in a buffer that feeds a batcher DIRECTLY (the batcher takes parts out of the batch while
+    it accepts it).'''
+    devs = [src('S', 1, pattern=list(pattern)), buf('B', ['S'], cap), batcher('PB', ['B'], size), sink('K', ['PB'], sink_cycle)]
+    if ops is None:
+        ops = [('block', 'PB', True), ('block', 'PB', False)]
+    nm = 'BUFBATCH[' + ','.join('s' if x is None else str(x) for x in pattern) + f'|cap{cap}|n{size}|K{K}]'
+    return spec(nm, devs, horizon, ops, K)
+
+
+def BATCH_DIRECT(K=0, horizon=6, pattern=(None, 2), size=2, cap=None, sink_cycle=0, ops=None):
+    '''The re-batching batcher receives batches and single parts directly from the source.'''
+    devs = [src('S', 1, pattern=list(pattern)), batcher('PB', ['S'], size), buf('B', ['PB'], cap), sink('K', ['B'], sink_cycle)]
+    if ops is None:
+        ops = [('block', 'K', True), ('block', 'K', False)]
+    nm = 'BATCHDIRECT[' + ','.join('s' if x is None else str(x) for x in pattern) + f'|n{size}|cap{cap}|K{sink_cycle}|K{K}]'
+    return spec(nm, devs, horizon, ops, K)
+
+
+def BATCHGATE(K=0, horizon=6, ops=None):
+    '''Batches built by a batcher, refused behind a pass-through gate by a busy machine, accepted later.'''
+    devs = [src('S', 0.5), batcher('PB', ['S'], 2), gate('G', ['PB'], 'all'), proc('M', ['G'], 2), sink('K', ['M'])]
+    if ops is None:
+        ops = [('fail', 'M', 0), ('restore', 'M'), ('block', 'G', True), ('block', 'G', False)]
+    return spec(f'BATCHGATE[K{K}]', devs, horizon, ops, K)
+
+
+def FANOUT_DELAY(K=0, horizon=4, ops=None):
+    '''Buffer with a minimum delay in front of two consumers that are free at the same instant.'''
+    devs = [src('S', 0.5), buf('B', ['S'], 3, 1), proc('M1', ['B'], 2), proc('M2', ['B'], 2), sink('K', ['M1', 'M2'])]
+    if ops is None:
+        ops = [('block', 'M2', True), ('block', 'M2', False), ('fail', 'M1', 0), ('restore', 'M1')]
+    return spec(f'FANOUTDELAY[K{K}]', devs, horizon, ops, K)
+
+
+def GRPFAN(K=0, horizon=5, ops=None):
+    '''Fan-out directly behind a group path: two receivers able to accept at the same instant.'''
+    devs = [proc('M1', [], 1), group('G', ['M1']), src('S', 1), path('a', 'G', ['S']),
+            proc('N1', ['a'], 1), proc('N2', ['a'], 1), sink('K', ['N1', 'N2']), sink('K2', ['a'])]
+    if ops is None:
+        ops = [('fail', 'N1', 0), ('restore', 'N1'), ('block', 'K2', True), ('block', 'K2', False)]
+    return spec(f'GRPFAN[K{K}]', devs, horizon, ops, K)
+
+
+def RES_SHUT(K=0, horizon=9, ops=None):
+    '''Two lines sharing one unit of a resource; M2 is shut down (scripted) while its request for the unit is
+    pending, the unit is released and taken again during the outage, M2 is restored, the unit is released again.'''
+    devs = [src('S1', 3), proc('M1', ['S1'], 2, resources={'r': 1}), sink('K1', ['M1']),
+            src('S2', 4), proc('M2', ['S2'], 1, resources={'r': 1}), sink('K2', ['M2'])]
+    if ops is None:
+        ops = [('addres', 'r', -1), ('addres', 'r', 1), ('fail', 'M1', 0), ('restore', 'M1')]
+    s = spec(f'RESSHUT[K{K}]', devs, horizon, ops, K, pools={'r': 1})
+    s['script'] = [[4.5, 2, ['shutdown', 'M2']], [6.5, 2, ['restore', 'M2']]]
+    return s
+
+
+def VALUE_NEST(K=0, horizon=4, ops=None):
+    '''Batches that contain batches (a user PartGenerator may build them); value only.'''
+    devs = [src('S', 1, pattern=[[2, 1], None, [1, [1, 1]]], values=[5, 3, 1, -2]), proc('P', ['S'], 1, dv=1), sink('K', ['P'])]
+    if ops is None:
+        ops = [('fail', 'P', 0), ('restore', 'P')]
+    return spec(f'VALUENEST[K{K}]', devs, horizon, ops, K)
+
+
+def VALUE_NEG(K=0, horizon=6, ops=None):
+    '''Negative part values and a work order with negative cost (a credit).'''
+    wo = {'x': [1, 1, -4], 'f': [0, 0, 2]}
+    devs = [src('S', 1, values=[5, -3, 0]), proc('P1', ['S'], 1, dv=-2, value=7), proc('P2', ['P1'], 2, dv=1, wo=wo, auto_repair='x'),
+            sink('K', ['P2']), maint(1, value=10)]
+    if ops is None:
+        ops = [('fail', 'P2', 0), ('wo', 'P2', 'x'), ('wo', 'P2', 'f')]
+    return spec(f'VALUENEG[K{K}]', devs, horizon, ops, K)
